@@ -406,3 +406,141 @@ Proof.
     repeat split; try lia; reflexivity.
   - intros [= <-]. right. cbn. repeat split; try lia; reflexivity.
 Qed.
+
+(* ---------- custody over the whole life ---------- *)
+(* a partial bid: bidder and auction account only (lend: the payment goes on to the pool) *)
+Lemma v1_partial_ledger cf ao a s who bid wd s' b r :
+  v1good a -> (v_lend cf = true -> 0 <= v_bonus cf) -> (v_lend cf = false -> v_bonus cf = 0) ->
+  v1_place_bid cf ao a s who bid wd = Ok (s', Some b, r) ->
+  v_netfee s' = v_netfee s /\
+  forall k, v_led s' k = v_led s k + delta k (BID_D who) AUC_D (w_paid r) + delta k AUC_C (BID_C who) (w_recv r)
+                         + (if v_lend cf then delta k AUC_D POOL_D (w_paid r) else 0).
+Proof.
+  intros GA Hb Hb0 H.
+  pose proof (v1_bid_amounts _ _ _ _ _ _ _ _ _ _ GA Hb Hb0 H) as (Hpaid & Hsl & Hrv & Hbn0 & _).
+  unfold v1_place_bid in H.
+  destruct (Z.eqb_spec bid 0); [discriminate|]. destruct wd; [discriminate|].
+  destruct (Z.gtb_spec bid (o_cur a)); [discriminate|].
+  apply obind_ok in H as ([owe0 infl0] & _ & H).
+  destruct (Z.leb_spec infl0 0); [discriminate|].
+  apply obind_ok in H as ([[owe infl] slice] & _ & H).
+  destruct (Z.ltb_spec infl 0); [discriminate|].
+  apply obind_ok in H as (outLeft & _ & H). apply obind_ok in H as (outLeftDebt & _ & H).
+  apply obind_ok in H as (lft & _ & H). apply obind_ok in H as (lftD & _ & H). apply obind_ok in H as (dust & _ & H).
+  destruct (_ && negb _); [discriminate|]. destruct (_ && negb (lft =? 0)); [discriminate|].
+  destruct (Z.ltb_spec slice 0); [discriminate|].
+  destruct (v_lend cf) eqn:Hl.
+  - apply obind_ok in H as (L1 & S1 & H). apply obind_ok in H as (L2 & S2 & H). apply oerr_ok in S1, S2.
+    apply obind_ok in H as (sl64 & _ & H). apply obind_ok in H as (bon & _ & H).
+    destruct (Z.ltb_spec (slice + dtrunc_int bon) 0); [discriminate|]. destruct (Z.ltb_spec (o_cur a - slice) 0); [discriminate|].
+    destruct (Z.geb_spec (i_cur a + infl) (i_target a)).
+    { apply obind_ok in H as (? & _ & H). apply obind_ok in H as (? & _ & H). discriminate. }
+    destruct (Z.eqb_spec (o_cur a - slice) 0).
+    { destruct (_ <? _); [discriminate|]. apply obind_ok in H as (? & _ & H). apply obind_ok in H as (? & _ & H). discriminate. }
+    apply obind_ok in H as (L3 & S3 & H). apply oerr_ok in S3. injection H as <- _ <-.
+    cbn [v_led v_netfee w_paid w_recv w_slice] in *. split; [reflexivity|]. intros k.
+    rewrite (send_delta _ _ _ _ _ S3 k), (send_delta _ _ _ _ _ S2 k), (send_delta _ _ _ _ _ S1 k). lia.
+  - apply obind_ok in H as (L1 & S1 & H). apply obind_ok in H as (L2 & S2 & H).
+    destruct (Z.ltb_spec (o_cur a - slice) 0); [discriminate|].
+    destruct (Z.geb_spec (i_cur a + infl) (i_target a)).
+    { apply obind_ok in H as (? & _ & H). apply obind_ok in H as ([? ?] & _ & H). discriminate. }
+    destruct (Z.eqb_spec (o_cur a - slice) 0).
+    { destruct (v_netfee s); [|discriminate]. destruct (_ <? 0); [discriminate|]. destruct (negb _); [discriminate|].
+      apply obind_ok in H as (? & _ & H). apply obind_ok in H as ([? ?] & _ & H). discriminate. }
+    injection H as <- _ <-. cbn [v_led v_netfee w_paid w_recv w_slice] in *. split; [reflexivity|]. intros k.
+    gsd S2 k. gsd S1 k. lia.
+Qed.
+
+(* the auction account over the whole life of one auction: beyond the live auction's remaining collateral it
+   holds what it held at the start minus the seized collateral minus the bonus paid; its debt balance beyond
+   what a live vault auction has collected is unchanged *)
+Definition live_o (f : v1life) : Z := match g_a f with Some a => o_cur a | None => 0 end.
+Definition live_i (cf : v1cfg) (f : v1life) : Z := match g_a f with Some a => if v_lend cf then 0 else i_cur a | None => 0 end.
+
+Definition V1Cust (cf : v1cfg) (coll0 c0 d0 : Z) (f : v1life) : Prop :=
+  v_led (g_s f) AUC_C - live_o f = c0 - coll0 - g_bonus f /\
+  v_led (g_s f) AUC_D - live_i cf f = d0.
+
+Lemma v1_step_cust cf ao coll0 target c0 d0 f o :
+  (v_lend cf = true -> 0 <= v_bonus cf) -> (v_lend cf = false -> v_bonus cf = 0) ->
+  (v_lend cf = false -> 0 <= ao <= target) ->
+  (match o with V1Bid who _ _ => 0 <= who | _ => True end) ->
+  V1Inv cf coll0 target f -> V1Cust cf coll0 c0 d0 f -> V1Cust cf coll0 c0 d0 (v1_step cf ao f o).
+Proof.
+  intros Hb Hb0 Hao Hwho (Hp & Hr & Hbo & Ht & Hbs & Hbv & HI) (HC & HD). unfold v1_step.
+  destruct (g_a f) as [a|] eqn:Ea; [|split; assumption].
+  assert (HCf : V1Cust cf coll0 c0 d0 f) by (split; assumption).
+  destruct HI as (GA & Htg & Hpd & Hrc & Ht0).
+  unfold live_o, live_i in HC, HD. rewrite Ea in HC, HD.
+  destruct o as [who amt wd | now pin pout].
+  - destruct (v1_place_bid cf ao a (g_s f) who amt wd) as [[[s' a'] r]| |] eqn:E; try exact HCf.
+    pose proof (v1_bid_amounts _ _ _ _ _ _ _ _ _ _ GA Hb Hb0 E) as (Hpaid & Hsl & Hrv & Hbn0 & Hbn1 & _ & _ & Hrest).
+    unfold V1Cust, live_o, live_i; cbn [g_s g_a g_bonus].
+    destruct a' as [b|].
+    + destruct Hrest as (_ & Htp & Hob & Hib & _).
+      destruct (v1_partial_ledger _ _ _ _ _ _ _ _ _ _ GA Hb Hb0 E) as (_ & HL).
+      pose proof (HL AUC_C) as EC. pose proof (HL AUC_D) as ED. clear HL.
+      unfold delta, AUC_C, AUC_D, POOL_D, BID_C, BID_D in *.
+      destruct (v_lend cf).
+      * split. { clear - EC HC Hwho Hob Hrv. revert EC. eqbs. } { clear - ED HD Hwho. revert ED. eqbs. }
+      * split. { clear - EC HC Hwho Hob Hrv. revert EC. eqbs. } { clear - ED HD Hwho Hib. revert ED. eqbs. }
+    + destruct (v_lend cf) eqn:Hl.
+      * destruct (v1_close_complete_lend _ _ _ _ _ _ _ _ _ Hl (Hb eq_refl) GA Hwho E) as (_ & EC & ED & _).
+        split; lia.
+      * rewrite Htg in *.
+        destruct (v1_close_complete_vault _ _ _ _ _ _ _ _ _ Hl (Hb0 eq_refl) GA ltac:(rewrite Htg; auto) Hwho E) as (_ & EC & ED & _).
+        assert (w_recv r - w_slice r = 0) by (rewrite Hrv; unfold v1_bonus_of; rewrite Hl; lia).
+        split; lia.
+  - unfold V1Cust, live_o, live_i; cbn [g_s g_a g_bonus].
+    pose proof (v1_tick_amounts cf now pin pout a) as (T1 & T2 & _). rewrite T1, T2. split; assumption.
+Qed.
+
+Definition v1op_ok (o : v1op) : Prop := match o with V1Bid who _ _ => 0 <= who | _ => True end.
+
+Lemma v1_run_cust cf ao coll0 target c0 d0 ops :
+  (v_lend cf = true -> 0 <= v_bonus cf) -> (v_lend cf = false -> v_bonus cf = 0) ->
+  (v_lend cf = false -> 0 <= ao <= target) -> Forall v1op_ok ops ->
+  forall f, V1Inv cf coll0 target f -> V1Cust cf coll0 c0 d0 f ->
+  V1Inv cf coll0 target (v1_run cf ao f ops) /\ V1Cust cf coll0 c0 d0 (v1_run cf ao f ops).
+Proof.
+  intros Hb Hb0 Hao Hops. induction Hops as [|o ops Ho _ IH]; intros f HI HC; [split; assumption|].
+  cbn. apply IH; [apply v1_step_inv; assumption | apply v1_step_cust with (target := target); assumption].
+Qed.
+
+Lemma v1_custody cf coll ao pen fees now pin pout a0 s ops :
+  (v_lend cf = true -> 0 <= v_bonus cf) -> (v_lend cf = false -> v_bonus cf = 0) ->
+  0 <= coll -> 0 <= ao -> 0 <= pen -> 0 <= fees -> Forall v1op_ok ops ->
+  v1_activate cf coll ao pen fees now pin pout = Ok a0 ->
+  let f := v1_run cf ao (mkV1L s (Some a0) 0 0 0 0) ops in
+  v_led (g_s f) AUC_C - live_o f = (v_led s AUC_C - coll) - g_bonus f /\
+  v_led (g_s f) AUC_D - live_i cf f = v_led s AUC_D.
+Proof.
+  intros Hb Hb0 Hc Ha Hp Hf Hops Ea f.
+  destruct (v1_activate_good _ _ _ _ _ _ _ _ _ Hc Ha Hp Hf Ea) as (GA & Ho & Hi & Htg & _).
+  assert (HI : V1Inv cf coll (i_target a0) (mkV1L s (Some a0) 0 0 0 0)).
+  { unfold V1Inv; cbn. repeat split; try lia; try apply GA. }
+  assert (HC : V1Cust cf coll (v_led s AUC_C) (v_led s AUC_D) (mkV1L s (Some a0) 0 0 0 0)).
+  { unfold V1Cust, live_o, live_i; cbn. destruct (v_lend cf); lia. }
+  destruct (v1_run_cust cf ao coll (i_target a0) _ _ ops Hb Hb0 ltac:(intros; lia) Hops _ HI HC) as (_ & (H1 & H2)).
+  fold f in H1, H2. split; lia.
+Qed.
+
+(* ---------- C10-F4: the unpaid bonus stays in the auction account ---------- *)
+(* the state of harness TestC10V1Lend case 5 (seed 1): lot 213393065, bonus 10 %: the liquidation module moved
+   234732372 into the auction account; one bid for the whole lot fills the target with 142262225 of it *)
+Definition l_cf : v1cfg := mkV1Cfg 1500000000000000000 600000000000000000 21600 0 1000000 1000000 true 100000000000000000.
+Definition l_au : v1auc := mkV1A 213393065 211707829 0 1507500000000000000000000 1013000000000000000000000
+                                 1507500000000000000000000 904500000000000000000000 0 21600.
+Definition l_led : ledger := fun k => if k =? 0 then 234732372 else if k =? 11 then 4611686018427387904 else 0.
+
+Lemma lend_bonus_stranded :
+  exists s' r, v1_place_bid l_cf 0 l_au (mkV1S l_led None) 0 213393065 false = Ok (s', None, r) /\
+    w_paid r = 211707829 /\ w_slice r = 142262043 /\ w_recv r = 156488247 /\
+    v_led s' OWN_C = 71131022 /\ v_led s' AUC_C = 7113103 /\
+    kf_C10_4 true 234732372 213393065 (w_recv r - w_slice r) = true /\
+    holds_C10_v1_custody (v_led s' AUC_C) (v_led s' AUC_D) = false.
+Proof.
+  destruct (v1_place_bid l_cf 0 l_au (mkV1S l_led None) 0 213393065 false) as [[[s' [a'|]] r]| |] eqn:E;
+    vm_compute in E; try discriminate.
+  exists s', r. split; [reflexivity|]. injection E as <- <-. vm_compute. repeat split; reflexivity.
+Qed.
